@@ -223,6 +223,12 @@ ModelSpec make_model(vh::Rng& rng, int unit_choice)
         for (auto& w : m.wells) if (w.wgrupcon) d << " '" << w.name << "' 'NO' " << num(0.5 + w.efac) << " 'OIL' 0.5 /\n";
         d << "/\n";
     }
+    // D-factor correlation (WDFACCOR): non-zero SCON[StaticDFacCorrCoeff] / SWEL[DFacCorr*]
+    if (rng.coin()) {
+        d << "WDFACCOR\n";
+        for (auto& w : m.wells) if (rng.coin()) d << " '" << w.name << "' " << num(1.0e-3 * rng.range(1, 9)) << " " << num(-1.0 - 0.01 * rng.range(0, 9)) << " " << num(0.1 * rng.range(0, 5)) << " /\n";
+        d << "/\n";
+    }
     // group level controls: GCONPROD / GCONINJE / GEFAC / GCONSUMP on the well groups (second round: IGRP/SGRP/XGRP tables)
     if (rng.coin(2, 3)) {
         d << "GCONPROD\n";
@@ -712,6 +718,8 @@ void corr_case(vh::Rng& rng, vh::Sink& sink, int unit_choice)
                 S("staticContrib", "CFDenom", "conn.ctfProperties().peaceman_denom", dval(conn.ctfProperties().peaceman_denom), Ix::CFDenom);
                 S("staticContrib", "EffectiveLength", "conn.connectionLength()", dval(conn.connectionLength()), Ix::EffectiveLength);
                 S("staticContrib", "CFInDeck", "conn.ctfAssignedFromInput()", ival(conn.ctfAssignedFromInput()), Ix::CFInDeck);
+                // nested conversion [D]·[viscosity] (helper staticDFacCorrCoeff inlined by the translator)
+                S("staticContrib", "StaticDFacCorrCoeff", "(conn.ctfProperties()).static_dfac_corr_coeff", dval(conn.ctfProperties().static_dfac_corr_coeff), Ix::StaticDFacCorrCoeff);
                 // the dynamic EffConnTrans item above is a copy entry in the table: drop it from the op (it has no source of its own)
                 std::string op = e.op.str(), ans = e.ans.str();
                 if (dynres) {
@@ -753,6 +761,7 @@ void corr_case(vh::Rng& rng, vh::Sink& sink, int unit_choice)
                 FD(f2, a2, "conn.skin_factor", rc.skin_factor); FD(f2, a2, "conn.cf", rc.cf); FD(f2, a2, "conn.depth", rc.depth); FD(f2, a2, "conn.diameter", rc.diameter);
                 FD(f2, a2, "conn.kh", rc.kh); FD(f2, a2, "conn.denom", rc.denom); FD(f2, a2, "conn.length", rc.length);
                 FD(f2, a2, "conn.segdist_end", rc.segdist_end); FD(f2, a2, "conn.segdist_start", rc.segdist_start);
+                FD(f2, a2, "conn.static_dfac_corr_coeff", rc.static_dfac_corr_coeff);
                 f2 << " conn.cf_kind"; a2 << " " << (rc.cf_kind == Opm::Connection::CTFKind::Defaulted ? "Defaulted" : "DeckValue"); ++n;
                 sink.emit("rstslots.dec SCON reader " + U + " " + wblock(SC, header.nsconz) + " F " + ival(n) + f2.str(), a2.str());
                 sink.count("dec.fields", n);
